@@ -256,6 +256,8 @@ def coq_obligations(prop):
                         if mm:
                             lemma = mm.group(1)
                             break
+                if any(p.get("kind") == "refinement-broken" and p.get("where") == where for p in problems):
+                    continue        # a file that imports the broken one: same failure
                 problems.append({"kind": "refinement-broken", "where": where, "lemma": lemma,
                                  "error": (m.group(3).strip()[:600] if m else rlog[-800:]),
                                  "meaning": "the Gallina code regenerated from /repo/src no longer equals the model (or is no longer translatable)"})
@@ -541,34 +543,59 @@ def setup():
 
 
 def replay(prop, path):
-    """Re-execute a recorded failing input on the current tree."""
+    """Re-execute a recorded violation on the current tree: the recorded cases through implementation and model,
+    the recorded search classes through the search, the recorded broken obligations through a rebuild."""
     r = json.load(open(path))
     bins = {}
     for prof in ("debug", "release"):
         ok, b, _ = build_harness(prof)
         if ok:
             bins[prof] = b
+    regen()
     bad = 0
+    search_classes = set()
     for f in r.get("failures", []):
         if f.get("kind") == "model-vs-impl":
             prof = f.get("profile", "debug")
             ok, drv, _ = build_driver()
             _, io, _ = sh([bins[prof], "impl"], stdin=(f["case"] + "\n").encode())
+            m = re.search(r" @now=(\d+)$", io.strip())
+            case, iout = f["case"], io.strip()
+            if m:
+                case, iout = case + " n" + m.group(1), iout[:m.start()]
             _, mo, _ = sh([drv, "--dbg", "true" if prof == "debug" else "false", "--oracle", bins[prof] + " oracle"],
-                          stdin=(f["case"] + "\n").encode())
+                          stdin=(case + "\n").encode())
             print("case:", f["case"][:200])
-            print(" impl :", io.strip()[:200])
+            print(" impl :", iout[:200])
             print(" model:", mo.strip()[:200])
-            bad += io.strip() != mo.strip()
+            bad += iout != mo.strip()
+        elif f.get("class"):
+            search_classes.add(f["class"])
         else:
-            print("recorded failure:", json.dumps(f)[:400])
-            bad += 1
+            print("recorded failure (not re-executable on its own):", json.dumps(f)[:300])
+    if search_classes and bins:
+        cfg = PROPS[prop]
+        srch = run_search(prop, r.get("tier", "quick"), r.get("seed", 1), bins)
+        if cfg.get("extra"):
+            srch = merge_search(srch, run_extra(cfg["extra"], bins))
+        known = load_known()
+        still = [f for f in srch["failures"] if f.get("class") in search_classes and not match_known(prop, f, known)]
+        print("search classes recorded: %s; failing now: %d" % (sorted(search_classes), len(still)))
+        for f in still[:3]:
+            print(" still failing:", json.dumps(f)[:300])
+        bad += len(still)
     if r.get("broken_obligations"):
-        print("broken obligations:", json.dumps(r["broken_obligations"])[:800])
-        bad += 1
+        obligations, problems = coq_obligations(prop)
+        sobs, sprob = source_obligations(prop)
+        problems += sprob
+        print("obligations recorded as broken: %d; broken now: %d" % (len(r["broken_obligations"]), len(problems)))
+        for p in problems[:3]:
+            print(" still broken:", json.dumps(p)[:400])
+        bad += len(problems)
     if bad:
         print("VIOLATION property=%s replay=%s" % (prop, path))
         return 1
+    print("replay: nothing of the recorded violation reproduces on the current tree")
     return 0
 
 
